@@ -25,6 +25,7 @@ limitations under the License.
 package filesystem
 
 import (
+	"bytes"
 	"context"
 	"crypto/rand"
 	"errors"
@@ -81,6 +82,13 @@ type KeyStore struct {
 	encryptor           keystore.KeyEncryptor
 	cacheEncryptor      keystore.KeyEncryptor
 	encryptorCtx        context.Context
+}
+
+// isSafeKeyFileID tells whether the client ID can be used as a part of key file name.
+// Key file names are made of the client ID and a suffix and are looked up directly in the key directory:
+// an ID with a path separator (like "../x") would address files outside of the key directory.
+func isSafeKeyFileID(id []byte) bool {
+	return !bytes.ContainsAny(id, "/\\\x00")
 }
 
 // NewFileSystemKeyStoreWithCacheSize represents keystore that reads keys from key folders, and stores them in cache.
@@ -605,6 +613,9 @@ func (store *KeyStore) getPublicKeyByFilename(filename string) (*keys.PublicKey,
 
 // GetClientIDEncryptionPublicKey return PublicKey by clientID from cache or load from main store
 func (store *KeyStore) GetClientIDEncryptionPublicKey(clientID []byte) (*keys.PublicKey, error) {
+	if !isSafeKeyFileID(clientID) {
+		return nil, keystore.ErrInvalidClientID
+	}
 	fname := store.GetPublicKeyFilePath(
 		// use correct suffix for public keys
 		getPublicKeyFilename(
@@ -638,6 +649,9 @@ func (store *KeyStore) GetPeerPublicKey(id []byte) (*keys.PublicKey, error) {
 // GetPrivateKey reads encrypted client private key from fs, decrypts it with master key and clientID,
 // and returns plaintext private key, or reading/decryption error.
 func (store *KeyStore) GetPrivateKey(id []byte) (*keys.PrivateKey, error) {
+	if !isSafeKeyFileID(id) {
+		return nil, keystore.ErrInvalidClientID
+	}
 	fname := getServerKeyFilename(id)
 
 	keyContext := keystore.NewClientIDKeyContext(keystore.PurposeStorageClientPrivateKey, id)
@@ -648,6 +662,9 @@ func (store *KeyStore) GetPrivateKey(id []byte) (*keys.PrivateKey, error) {
 // decrypts it with master key and clientID,
 // and returns plaintext private key, or reading/decryption error.
 func (store *KeyStore) GetServerDecryptionPrivateKey(id []byte) (*keys.PrivateKey, error) {
+	if !isSafeKeyFileID(id) {
+		return nil, keystore.ErrInvalidClientID
+	}
 	fname := GetServerDecryptionKeyFilename(id)
 	keyContext := keystore.NewClientIDKeyContext(keystore.PurposeStorageClientPrivateKey, id)
 	return store.getPrivateKeyByFilename(fname, keyContext)
@@ -657,6 +674,9 @@ func (store *KeyStore) GetServerDecryptionPrivateKey(id []byte) (*keys.PrivateKe
 // decrypts them with master key and clientID, and returns plaintext private keys,
 // or reading/decryption error.
 func (store *KeyStore) GetServerDecryptionPrivateKeys(id []byte) ([]*keys.PrivateKey, error) {
+	if !isSafeKeyFileID(id) {
+		return nil, keystore.ErrInvalidClientID
+	}
 	filenames, err := store.GetHistoricalPrivateKeyFilenames(GetServerDecryptionKeyFilename(id))
 	if err != nil {
 		return nil, err
@@ -1002,6 +1022,9 @@ func (store *KeyStore) GetPoisonSymmetricKey() ([]byte, error) {
 
 // SaveDataEncryptionKeys save or overwrite decryption keypair for client id
 func (store *KeyStore) SaveDataEncryptionKeys(id []byte, keypair *keys.Keypair) error {
+	if !isSafeKeyFileID(id) {
+		return keystore.ErrInvalidClientID
+	}
 	filename := GetServerDecryptionKeyFilename(id)
 
 	keyContext := keystore.NewClientIDKeyContext(keystore.PurposeStorageClientPrivateKey, id)
@@ -1060,6 +1083,9 @@ func (store *KeyStore) Get(keyID string) ([]byte, bool) {
 
 // GetHMACSecretKey return key for hmac calculation according to id
 func (store *KeyStore) GetHMACSecretKey(id []byte) ([]byte, error) {
+	if !isSafeKeyFileID(id) {
+		return nil, keystore.ErrInvalidClientID
+	}
 	filename := getHmacKeyFilename(id)
 	keyContext := keystore.NewClientIDKeyContext(keystore.PurposeSearchHMAC, id)
 
@@ -1074,6 +1100,9 @@ func (store *KeyStore) GetHMACSecretKey(id []byte) ([]byte, error) {
 
 // GenerateHmacKey key for hmac calculation in in folder for private keys
 func (store *KeyStore) GenerateHmacKey(id []byte) error {
+	if !isSafeKeyFileID(id) {
+		return keystore.ErrInvalidClientID
+	}
 	log.Debugln("Generate HMAC")
 	key, err := keystore.GenerateSymmetricKey()
 	if err != nil {
@@ -1200,6 +1229,9 @@ func (store *KeyStore) loadKeyAndCache(filename string, keyContext keystore.KeyC
 
 // GenerateClientIDSymmetricKey generate symmetric key for specified client id
 func (store *KeyStore) GenerateClientIDSymmetricKey(id []byte) error {
+	if !isSafeKeyFileID(id) {
+		return keystore.ErrInvalidClientID
+	}
 	keyName := getClientIDSymmetricKeyName(id)
 
 	keyContext := keystore.NewClientIDKeyContext(keystore.PurposeStorageClientSymmetricKey, id)
@@ -1257,6 +1289,9 @@ func (store *KeyStore) getLatestSymmetricKey(keyname string, keyContext keystore
 
 // GetClientIDSymmetricKeys return symmetric keys for specified client id
 func (store *KeyStore) GetClientIDSymmetricKeys(id []byte) ([][]byte, error) {
+	if !isSafeKeyFileID(id) {
+		return nil, keystore.ErrInvalidClientID
+	}
 	keyName := getClientIDSymmetricKeyName(id)
 
 	keyContext := keystore.NewClientIDKeyContext(keystore.PurposeStorageClientSymmetricKey, id)
@@ -1265,6 +1300,9 @@ func (store *KeyStore) GetClientIDSymmetricKeys(id []byte) ([][]byte, error) {
 
 // GetClientIDSymmetricKey return latest symmetric key for encryption by specified client id
 func (store *KeyStore) GetClientIDSymmetricKey(id []byte) ([]byte, error) {
+	if !isSafeKeyFileID(id) {
+		return nil, keystore.ErrInvalidClientID
+	}
 	keyName := getClientIDSymmetricKeyName(id)
 
 	keyContext := keystore.NewClientIDKeyContext(keystore.PurposeStorageClientSymmetricKey, id)
@@ -1283,16 +1321,25 @@ func (store *KeyStore) DestroyPoisonSymmetricKey() error {
 
 // DestroyClientIDEncryptionKeyPair destroy server encryption key pair
 func (store *KeyStore) DestroyClientIDEncryptionKeyPair(clientID []byte) error {
+	if !isSafeKeyFileID(clientID) {
+		return keystore.ErrInvalidClientID
+	}
 	return store.destroyKeyWithFilename(GetServerDecryptionKeyFilename(clientID))
 }
 
 // DestroyClientIDSymmetricKey destroy private poison key
 func (store *KeyStore) DestroyClientIDSymmetricKey(clientID []byte) error {
+	if !isSafeKeyFileID(clientID) {
+		return keystore.ErrInvalidClientID
+	}
 	return store.destroySymmetricKeyWithFilename(GetServerDecryptionKeyFilename(clientID))
 }
 
 // DestroyHmacSecretKey destroy hmac secter key
 func (store *KeyStore) DestroyHmacSecretKey(clientID []byte) error {
+	if !isSafeKeyFileID(clientID) {
+		return keystore.ErrInvalidClientID
+	}
 	return store.destroyKeyWithFilename(getHmacKeyFilename(clientID))
 }
 
@@ -1313,6 +1360,9 @@ func (store *KeyStore) DestroyRotatedPoisonSymmetricKey(index int) error {
 
 // DestroyRotatedClientIDEncryptionKeyPair destroy created rotated storage key pair
 func (store *KeyStore) DestroyRotatedClientIDEncryptionKeyPair(clientID []byte, index int) error {
+	if !isSafeKeyFileID(clientID) {
+		return keystore.ErrInvalidClientID
+	}
 	fileName := GetServerDecryptionKeyFilename(clientID)
 
 	if err := store.destroyRotatedKeyByIndex(store.GetPrivateKeyFilePath(fileName), index); err != nil {
@@ -1325,12 +1375,18 @@ func (store *KeyStore) DestroyRotatedClientIDEncryptionKeyPair(clientID []byte, 
 
 // DestroyRotatedClientIDSymmetricKey destroy created rotated symmetric key
 func (store *KeyStore) DestroyRotatedClientIDSymmetricKey(clientID []byte, index int) error {
+	if !isSafeKeyFileID(clientID) {
+		return keystore.ErrInvalidClientID
+	}
 	keyName := getClientIDSymmetricKeyName(clientID)
 	return store.destroyRotatedKeyByIndex(store.GetPrivateKeyFilePath(keyName), index)
 }
 
 // DestroyRotatedHmacSecretKey destroy created rotated hmac symmetric key
 func (store *KeyStore) DestroyRotatedHmacSecretKey(clientID []byte, index int) error {
+	if !isSafeKeyFileID(clientID) {
+		return keystore.ErrInvalidClientID
+	}
 	keyName := getHmacKeyFilename(clientID)
 	return store.destroyRotatedKeyByIndex(store.GetPrivateKeyFilePath(keyName), index)
 }
